@@ -8,6 +8,7 @@ import (
 	"errors"
 	"fmt"
 	"io"
+	"math"
 	"testing"
 
 	"github.com/AdguardTeam/golibs/ioutil"
@@ -97,6 +98,8 @@ func (s *scriptReader) Read(p []byte) (int, error) {
 type readCase struct {
 	Stream int   `json:"stream_len"`
 	Limit  int   `json:"limit"`
+	// Huge, when non-zero, replaces Limit: limits around 2^63 and 2^64 ("unlimited")
+	Huge uint64 `json:"huge_limit"`
 	Bufs   []int `json:"buf_sizes"`
 	Script []int `json:"reader_script"`
 }
@@ -111,8 +114,12 @@ func stream(n int) []byte {
 
 // runRead drives one LimitReader history and returns the first violation.
 func runRead(c readCase) (what string, calls int) {
-	src := &scriptReader{stream: stream(c.Stream), script: c.Script, limit: uint64(c.Limit)}
-	lr := ioutil.LimitReader(src, uint64(c.Limit))
+	limit := uint64(c.Limit)
+	if c.Huge != 0 {
+		limit = c.Huge
+	}
+	src := &scriptReader{stream: stream(c.Stream), script: c.Script, limit: limit}
+	lr := ioutil.LimitReader(src, limit)
 	var delivered []byte
 	for i, sz := range c.Bufs {
 		p := bytes.Repeat([]byte{0xEE}, sz)
@@ -123,11 +130,11 @@ func runRead(c readCase) (what string, calls int) {
 		if len(src.problems) > 0 {
 			return fmt.Sprintf("call %d: %s", i, src.problems[0]), calls
 		}
-		if before >= uint64(c.Limit) {
+		if before >= limit {
 			// the limit is used up: (0, *LimitError{Limit}) and the wrapped reader is left alone
 			var le *ioutil.LimitError
-			if n != 0 || !errors.As(err, &le) || le == nil || le.Limit != uint64(c.Limit) {
-				return fmt.Sprintf("call %d after %d bytes (limit %d): got (%d, %v), want (0, *LimitError{Limit:%d})", i, before, c.Limit, n, err, c.Limit), calls
+			if n != 0 || !errors.As(err, &le) || le == nil || le.Limit != limit {
+				return fmt.Sprintf("call %d after %d bytes (limit %d): got (%d, %v), want (0, *LimitError{Limit:%d})", i, before, limit, n, err, limit), calls
 			}
 			if src.called {
 				return fmt.Sprintf("call %d: wrapped reader was read after the limit had been delivered", i), calls
@@ -138,7 +145,7 @@ func runRead(c readCase) (what string, calls int) {
 		if !src.called {
 			// not consulting the wrapped reader is only legal as a (0, nil) no-op
 			if n != 0 || err != nil {
-				return fmt.Sprintf("call %d: wrapped reader not consulted although %d bytes of the limit remain, yet the caller got (%d, %v)", i, uint64(c.Limit)-before, n, err), calls
+				return fmt.Sprintf("call %d: wrapped reader not consulted although %d bytes of the limit remain, yet the caller got (%d, %v)", i, limit-before, n, err), calls
 			}
 			continue
 		}
@@ -154,8 +161,8 @@ func runRead(c readCase) (what string, calls int) {
 				return fmt.Sprintf("call %d: bytes beyond n were written into the caller's buffer", i), calls
 			}
 		}
-		if len(delivered) > c.Limit {
-			return fmt.Sprintf("call %d: %d bytes delivered with limit %d", i, len(delivered), c.Limit), calls
+		if uint64(len(delivered)) > limit {
+			return fmt.Sprintf("call %d: %d bytes delivered with limit %d", i, len(delivered), limit), calls
 		}
 		if !bytes.HasPrefix(src.stream, delivered) {
 			return fmt.Sprintf("call %d: delivered %q is not a prefix of the stream %q", i, delivered, src.stream), calls
@@ -284,7 +291,7 @@ func TestReader(t *testing.T) {
 				limited++
 			}
 			if what != "" {
-				cc := readCase{c.Stream, c.Limit, append([]int{}, c.Bufs...), append([]int{}, c.Script...)}
+				cc := readCase{Stream: c.Stream, Limit: c.Limit, Bufs: append([]int{}, c.Bufs...), Script: append([]int{}, c.Script...)}
 				r.Violation(fmt.Sprintf("reader:%v", cc), fmt.Sprintf("LimitReader(stream of %d bytes, n=%d), buffers %v, wrapped reader script %v: %s", c.Stream, c.Limit, c.Bufs, names(c.Script, rKindNames), what), cc)
 				if r.TooMany() {
 					break
@@ -297,8 +304,25 @@ func TestReader(t *testing.T) {
 		r.Count("reader_histories_stream_longer_than_limit", limited)
 	})
 	r.Exhaustive(fmt.Sprintf("LimitReader: stream length 0..%d x limit 0..%d x every sequence of %d caller buffer sizes from %v x every sequence of %d wrapped-reader behaviours from %v", maxStream, maxLimit, nCalls, bufSizes, nCalls, rKindNames))
-	r.Sample(readCase{5, 3, []int{2, 8, 1, 3}, []int{rDataErr, rFull, rZero, rFull}})
+	r.Sample(readCase{Stream: 5, Limit: 3, Bufs: []int{2, 8, 1, 3}, Script: []int{rDataErr, rFull, rZero, rFull}})
 
+	// limits at the top of the uint64 range ("unlimited"): everything passes through, nothing is refused
+	var he int64
+	for _, huge := range []uint64{math.MaxUint64, math.MaxUint64 - 1, 1 << 63, 1<<63 - 1, 1<<63 + 1, math.MaxInt64, 1 << 62, 1 << 32, 1<<32 + 1, 1<<31 - 1} {
+		for streamLen := 0; streamLen <= 5; streamLen++ {
+			for sc := 0; sc < gen.PowInt(nRKinds, 3); sc++ {
+				c := readCase{Stream: streamLen, Huge: huge, Bufs: []int{3, 0, 8, 2}, Script: make([]int, 3)}
+				gen.SeqAt(nRKinds, sc, c.Script)
+				what, calls := runRead(c)
+				he += int64(calls)
+				if what != "" {
+					r.Violation(fmt.Sprintf("reader-huge:%d:%d:%v", huge, streamLen, c.Script), fmt.Sprintf("LimitReader(stream of %d bytes, n=%d), wrapped reader script %v: %s", streamLen, huge, names(c.Script, rKindNames), what), c)
+				}
+			}
+		}
+	}
+	r.Eval(he)
+	r.Count("reader_huge_limit_calls", he)
 	// deep random runs
 	nr := r.Pick(50_000, 2_000_000)
 	mon.Parallel(nr, func(w, lo, hi int) {
